@@ -1,7 +1,7 @@
 // IDEA round trip (C01).  The direct query (real mul / mul_inv with its Euclid loop) runs out of memory, and the combined
 // leaf statement mul(mul(x,k), mul_inv(k)) == x is a multiplier-associativity query no SAT solver finishes.  So:
 //   L  idea_leaf_mul (conf.rs)   Idea::mul(a,b) == a*b mod 65537 (0 = 2^16) for all 2^32 (a,b)           [solver]
-//   L  idea_leaf_inv (conf.rs)   mul(k, mul_inv(k)) == 1 for all 2^16 k                                   [solver]
+//   L  idea_inv_r0..r15 (inv16.rs) mul(k, mul_inv(k)) == 1 for all 2^16 k (16 argument ranges)          [solver]
 //      => by arithmetic (the non-zero residues mod the prime 65537 form a commutative group; not a property of the code):
 //         mul(mul(x,k), mul_inv(k)) == x  and  mul(mul(x, mul_inv(k)), k) == x  for all x, k             [cancellation laws]
 //   W  idea_roundtrip_ed/de      Idea::new(key) (real expand_key / invert_sub_keys / add / add_inv / crypt), all 2^128 keys and
@@ -142,7 +142,7 @@ pub fn stub_mul_inv(_c: &Idea, a: u16) -> u16 {
     return r::mul_inv(a);
 }
 
-//@ harness name=idea_roundtrip_ed prop=C01 tier=quick bits=192 stub=1 est=120 desc="W: decrypt_block(encrypt_block(b)) == b for Idea::new(key), all 2^128 keys, all 2^64 blocks; real key schedule, sub-key inversion placement, add, add_inv and data path; mul / mul_inv uninterpreted up to the cancellation laws that follow from idea_leaf_mul + idea_leaf_inv"
+//@ harness name=idea_roundtrip_ed prop=C01 tier=quick bits=192 stub=1 est=120 desc="W: decrypt_block(encrypt_block(b)) == b for Idea::new(key), all 2^128 keys, all 2^64 blocks; real key schedule, sub-key inversion placement, add, add_inv and data path; mul / mul_inv uninterpreted up to the cancellation laws that follow from idea_leaf_mul + idea_inv_r0..r15"
 verif_harness! {
     name: idea_roundtrip_ed,
     bytes: 24,
@@ -159,7 +159,7 @@ verif_harness! {
     }
 }
 
-//@ harness name=idea_roundtrip_de prop=C01 tier=quick bits=192 stub=1 est=120 desc="W: encrypt_block(decrypt_block(b)) == b for Idea::new(key), all keys, all blocks; mul / mul_inv uninterpreted up to the cancellation laws that follow from idea_leaf_mul + idea_leaf_inv"
+//@ harness name=idea_roundtrip_de prop=C01 tier=quick bits=192 stub=1 est=120 desc="W: encrypt_block(decrypt_block(b)) == b for Idea::new(key), all keys, all blocks; mul / mul_inv uninterpreted up to the cancellation laws that follow from idea_leaf_mul + idea_inv_r0..r15"
 verif_harness! {
     name: idea_roundtrip_de,
     bytes: 24,
